@@ -8,6 +8,7 @@ import (
 	"bytes"
 	"net/http"
 	"regexp"
+	"regexp/syntax"
 	"strconv"
 	"strings"
 
@@ -308,9 +309,14 @@ func constructMatchStyleRegex(s *Segment) (*regexp.Regexp, []string, error) {
 				return nil, nil, errors.Errorf("segment has non-regex literal in position %d", e.Pos.Offset)
 			}
 
+			expr, err := nonCapturing(*p.Value.Regex)
+			if err != nil {
+				return nil, nil, errors.Wrapf(err, "compile regexp near position %d", s.Pos.Offset)
+			}
+
 			binds = append(binds, p.Ident)
 			buf.WriteString("(")
-			buf.WriteString(*p.Value.Regex)
+			buf.WriteString(expr)
 			buf.WriteString(")")
 		}
 	}
@@ -321,6 +327,30 @@ func constructMatchStyleRegex(s *Segment) (*regexp.Regexp, []string, error) {
 		return nil, nil, errors.Wrapf(err, "compile regexp near position %d", s.Pos.Offset)
 	}
 	return re, binds, nil
+}
+
+// nonCapturing rewrites the expression so that its own groups do not capture,
+// which keeps sub-matches of the assembled regexp aligned with bind parameters.
+// The expression is returned as is when it has no capturing groups.
+func nonCapturing(expr string) (string, error) {
+	re, err := syntax.Parse(expr, syntax.Perl)
+	if err != nil {
+		return "", err
+	} else if re.MaxCap() == 0 {
+		return expr, nil
+	}
+
+	var strip func(re *syntax.Regexp) *syntax.Regexp
+	strip = func(re *syntax.Regexp) *syntax.Regexp {
+		for re.Op == syntax.OpCapture {
+			re = re.Sub[0]
+		}
+		for i, sub := range re.Sub {
+			re.Sub[i] = strip(sub)
+		}
+		return re
+	}
+	return strip(re).String(), nil
 }
 
 // getParentBindSet returns a set of all bind parameters defined in parent
